@@ -939,7 +939,7 @@ def eval_term(t, env_of):
     return None
 
 
-def explore_under(fn, env_of, limit=4000, avoid=()):
+def explore_under(fn, env_of, limit=4000, avoid=(), capture=()):
     """(return blocks reached, blocks visited) by abstract execution from the entry: values of locals are tracked *along the
     path* (constants, plain copies, and whatever `eval_term` decides for a right-hand side or a call result under the
     environment), every switch whose discriminant is thereby decided takes only the decided edge, an undecided switch forks.
@@ -947,6 +947,7 @@ def explore_under(fn, env_of, limit=4000, avoid=()):
     out, visited = set(), set()
     seen_states = set()
     undecided = set()
+    captured = []
     stack = [(0, {})]
     n = 0
 
@@ -972,6 +973,8 @@ def explore_under(fn, env_of, limit=4000, avoid=()):
             continue
         seen_states.add(key)
         visited.add(b)
+        if b in capture:
+            captured.append((b, dict(st)))
         st = dict(st)
         for s_ in fn.blocks[b]["stmts"]:
             if s_["k"] != "assign" or s_["lhs"].get("p"):
@@ -1027,6 +1030,7 @@ def explore_under(fn, env_of, limit=4000, avoid=()):
         for sx in fn.succ(b):
             stack.append((sx, st))
     explore_under.undecided = undecided
+    explore_under.captured = captured
     return out, visited
 
 
